@@ -24,7 +24,13 @@ def run(rep, tier):
     sub = SubReport("C02")
     T = collect(rep, "C03", _work, also={"C02": (sub, ("R3",))})
     merge_sub(rep, sub, "R4", "C02")
-    # R3: Bytecode.__iter__ plumbing (def-use)
+    plumbing_rule(rep, T)
+    rep.assumptions = ["reference/dis_semantics.json (Lib/dis.py of 2.7, 3.6-3.13); table *contents* are C01's subject; argrepr text is not compared",
+                       "cmp_op compared by position modulo xdis's documented '-' spelling"]
+
+
+def plumbing_rule(rep, T):
+    """R3: Bytecode.__iter__ plumbing (def-use)"""
     bc = T.F.modules["xdis.bytecode"]
     B = bc.ns.get("Bytecode")
     if B is None:
@@ -58,5 +64,3 @@ def run(rep, tier):
         rep.ob("R3", "xdis.bytecode.Bytecode.__iter__", "tables-passed@%s" % v, ok,
                expected=["co_code", "opc", "co_varnames", "co_names", "co_consts", "co_cellvars + co_freevars"], derived=got,
                msg="the decoder is not given the code object's own tables (cells must be cellvars followed by freevars)")
-    rep.assumptions = ["reference/dis_semantics.json (Lib/dis.py of 2.7, 3.6-3.13); table *contents* are C01's subject; argrepr text is not compared",
-                       "cmp_op compared by position modulo xdis's documented '-' spelling"]
